@@ -39,6 +39,19 @@ def generate(tier, seed):
             ad = adapter_X(ad, "p" + "".join(rnd.choice("pppprf") for _ in range(2 * n)))
         cases.append(case("eng", sp, ad, "w", steps))
         dist["random"] += 1
+    # two policy types per section: the event must name the policy type, not the section
+    sp = multi_spec()
+    al = multi_alphabet() + ["SV"]
+    for k in (1, 2):
+        hs = list(itertools.product(al, repeat=k))
+        if k == 2 and tier == "quick":
+            hs = rnd.sample(hs, 500)
+        for h in hs:
+            steps = list(obs)
+            for o in h:
+                steps += [o] + obs
+            cases.append(case("eng", sp, adapter_M(multi_lines()), "w", steps))
+            dist["exhaustive"] += 1
     return {
         "cases": cases,
         "exhaustive": False,
